@@ -18,8 +18,8 @@ import (
 	"testing"
 	"time"
 
-	"github.com/cocosip/go-dicom/pkg/imaging/imagetypes"
 	codecHelpers "github.com/cocosip/go-dicom-codecs/codec"
+	"github.com/cocosip/go-dicom/pkg/imaging/imagetypes"
 )
 
 // ---------------------------------------------------------------------------------------------
@@ -238,6 +238,14 @@ func verifC08Enumerate(bases, prefixes []verifC08Base, markers []byte, segs func
 	}
 }
 
+// verifC08Excl marks a recipe that cannot be executed inside the test process because the decode under test
+// does not come back in time or exhausts memory (the run that discovered it was stopped by guard()).
+// Every entry is a recorded C09 violation; c08 is set when it is a C08 violation as well.
+type verifC08Excl struct {
+	why string
+	c08 bool
+}
+
 // verifC08Decoder is one decoding entry point. ok reports "returned a result, not an error".
 type verifC08Decoder struct {
 	name string
@@ -405,18 +413,32 @@ func (r *verifC08Runner) finish(t *testing.T) {
 // decs[0] is the package level entry point and sees every case; the remaining entry points (thin DICOM codec
 // wrappers around decs[0]) see the cases decs[0] accepted, the cases it panicked on, and every 8th other case.
 func verifC08RunC08(t *testing.T, pkg string, decs []verifC08Decoder, declared func([]byte) (int64, bool, int64),
-	excluded map[string]string, enumerate func(fn func(c *verifC08Case) bool), domain string) {
+	excluded map[string]verifC08Excl, enumerate func(fn func(c *verifC08Case) bool), domain string) {
 	r := verifC08NewRunner(t.Name(), pkg, 30*time.Second)
 	r.domain = domain
 	old := debug.SetMemoryLimit(3 << 30)
 	defer debug.SetMemoryLimit(old)
 	go r.guard()
 	start := time.Now()
+	var kindTime map[string]time.Duration
+	var kindN map[string]int
+	if os.Getenv("VERIF_C08_DEBUG") != "" {
+		kindTime, kindN = map[string]time.Duration{}, map[string]int{}
+		defer func() {
+			for k, v := range kindTime {
+				fmt.Printf("VERIF-C08-DEBUG secs=%.3f n=%d key=%s\n", v.Seconds(), kindN[k], k)
+			}
+		}()
+	}
 	enumerate(func(c *verifC08Case) bool {
-		if why, ex := excluded[c.key()]; ex {
+		if e, ex := excluded[c.key()]; ex && os.Getenv("VERIF_RUN_EXCLUDED") == "" {
+			if !e.c08 {
+				r.skipped++ // a C09 violation (too slow / too much memory), not a panic: see TestVerif_C09
+				return true
+			}
 			r.cases++
 			r.fails++
-			r.extra = append(r.extra, fmt.Sprintf("kind=excluded-known-abort why=%q %s", why, c.String()))
+			r.extra = append(r.extra, fmt.Sprintf("kind=excluded-known-abort why=%q %s", e.why, c.String()))
 			return true
 		}
 		if _, _, g := declared(c.data); g > verifC08MaxS {
@@ -424,6 +446,19 @@ func verifC08RunC08(t *testing.T, pkg string, decs []verifC08Decoder, declared f
 			return true
 		}
 		r.cases++
+		tCase := time.Now()
+		defer func() {
+			if kindTime != nil {
+				el := time.Since(tCase)
+				kindTime[c.kind] += el
+				kindTime["base:"+c.base] += el
+				kindN[c.kind]++
+				kindN["base:"+c.base]++
+				if el > 500*time.Millisecond {
+					fmt.Printf("VERIF-C08-SLOW %s %s\n", el, c.String())
+				}
+			}
+		}()
 		failed, primOK := false, false
 		for i := range decs {
 			if i > 0 && !(primOK || failed || r.cases%8 == 0) {
@@ -450,7 +485,7 @@ func verifC08RunC08(t *testing.T, pkg string, decs []verifC08Decoder, declared f
 // and allocates (runtime.MemStats.TotalAlloc delta, an upper bound of the peak heap growth of the call)
 // at most 512 MiB + 64*S bytes where S is the sample count declared by the first frame header (0 if none).
 func verifC08RunC09(t *testing.T, pkg string, decs []verifC08Decoder, declared func([]byte) (int64, bool, int64),
-	excluded map[string]string, enumerate func(fn func(c *verifC08Case) bool), every int, domain string) {
+	excluded map[string]verifC08Excl, enumerate func(fn func(c *verifC08Case) bool), every int, domain string) {
 	r := verifC08NewRunner(t.Name(), pkg, 10*time.Second)
 	r.domain = domain
 	old := debug.SetMemoryLimit(3 << 30)
@@ -466,10 +501,10 @@ func verifC08RunC09(t *testing.T, pkg string, decs []verifC08Decoder, declared f
 		if c.kind == "valid" {
 			baseS[c.base] = s
 		}
-		if why, ex := excluded[c.key()]; ex {
+		if e, ex := excluded[c.key()]; ex && os.Getenv("VERIF_RUN_EXCLUDED") == "" {
 			r.cases++
 			r.fails++
-			r.extra = append(r.extra, fmt.Sprintf("kind=excluded-known-abort why=%q %s", why, c.String()))
+			r.extra = append(r.extra, fmt.Sprintf("kind=excluded-known-abort declaredS=%d why=%q %s", s, e.why, c.String()))
 			return true
 		}
 		if g > verifC08MaxS {
@@ -728,7 +763,7 @@ func verifC08JPEGDomain(tier string, nb int, extra string) string {
 		n, w, r = 1500, 1500, 6000
 		vals = "all 256 values"
 	}
-	return fmt.Sprintf("tier=%s seed=%d; %d valid streams from the package encoder (%s); each: unchanged, every truncation, byte substitution at first %d bytes x %s, 16-bit big-endian substitution {0,1,0x7fff,0x8000,0xffff} at first %d offsets, marker-segment drop/dup/swap/move-first; %d seeded random strings per start prefix (SOI, and a valid header through SOS); handcrafted DHT/LSE specials; inputs whose independently parsed frame header (any SOFn-looking position) declares > 2^22 samples are skipped",
+	return fmt.Sprintf("tier=%s seed=%d; %d valid streams from the package encoder (%s); each: unchanged, every truncation, byte substitution at first %d bytes x %s, 16-bit big-endian substitution {0,1,0x7fff,0x8000,0xffff} at first %d offsets, marker-segment drop/dup/swap/move-first; %d seeded random strings per start prefix (SOI, and a valid header through SOS); handcrafted specials (non-prefix-code DHT BITS; for JPEG-LS: LSE preset grids and the SOF55.P x SOS.NEAR grid); inputs whose independently parsed frame header (any SOFn-looking position) declares > 2^22 samples are skipped",
 		tier, verifC08Seed(), nb, extra, n, vals, w, r)
 }
 
@@ -781,9 +816,10 @@ func verifC08Decoders() []verifC08Decoder {
 	}
 }
 
-// verifC08Excluded lists recipes that abort the whole test process (out of memory / endless loop); each one
-// is a recorded violation and is skipped so that the remaining domain can run.
-var verifC08Excluded = map[string]string{}
+// verifC08Excluded lists recipes (verifC08Case.key) that abort the whole test process (out of memory, or a
+// decode that does not return within the watchdog limit); each one is a recorded violation and is not executed
+// so that the remaining domain can run. Set VERIF_RUN_EXCLUDED=1 to execute them anyway.
+var verifC08Excluded = map[string]verifC08Excl{}
 
 func verifC08Setup(t *testing.T) (decs []verifC08Decoder, enumerate func(fn func(c *verifC08Case) bool), domain string) {
 	bases := verifC08Bases(t)
@@ -831,4 +867,3 @@ func TestVerif_C09_jpeg_lossless(t *testing.T) {
 	verifC08RunC09(t, verifC08Pkg, decs, verifC08Declared, verifC08Excluded, enumerate, every,
 		fmt.Sprintf("C09 per decode: wall <= 10 s and TotalAlloc delta (upper bound proxy for peak heap) <= 512MiB+64*S, S = samples declared by first frame header (0 if none); sample = every case whose declared S differs from its base stream + every %d-th case of: ", every)+domain)
 }
-
